@@ -3,7 +3,7 @@ from fractions import Fraction
 
 import z3
 
-from symx import core, stubs
+from symx import core, stubs, fp
 from symx.core import Obl, SymNum, SymBool, lift, lb, mval
 from . import common
 from .common import ANN
@@ -45,6 +45,10 @@ def configs(tier):
     out.append(dict(key="custom,annotators=1,weights,maxu=1,redraws<=24", mode="custom", nann=1, weights=True, maxu=1, maxredraw=24, cost=600))
     # the same sampler object initialised twice on the same continuum object (other ground truth, continuum changed in between)
     out.append(dict(key="measured,re-initialised,ref=(1, 1, 1),gt=[0, 1]", mode="measured", sizes=[1, 1, 1], gt=[0, 1], maxu=1, reinit=True, cost=5000))
+    # IEEE mode (symx.fp): the same sampler source on binary64 draws - validity of the emitted segments after the rounding of
+    # start = last + gap and end = start + duration, for positions up to 2^40 (what the real-arithmetic configurations cannot see)
+    for nu in ((1,) if tier == "quick" else (1, 2)):
+        out.append(dict(key=f"ieee,custom,annotators=1,units={nu}", mode="ieee", nu=nu, maxu=nu, timeout_ms=120000, cost=400 * nu, split=8 if nu > 1 else None))
     if tier == "thorough":
         out.append(dict(key="custom,annotators=3,weights,maxu=1", mode="custom", nann=3, weights=True, maxu=1, cost=20000))
         out.append(dict(key="custom,annotators=2,weights,maxu=2", mode="custom", nann=2, weights=True, maxu=2, cost=20000))
@@ -63,7 +67,50 @@ def harness(cfg, ns):
     PREC = ns.pseg.SEGMENT_PRECISION
     maxu = cfg["maxu"]
 
+    def h_ieee(ctx):
+        ctx.fp_mode = True
+        nu = cfg["nu"]
+        log = []
+
+        class FPRNG:
+            """numpy.random contract in IEEE mode: normal(mu, sd) is any finite binary64 (|x| <= 2^40), the mean itself when sd == 0"""
+            draws = 0
+
+            def normal(self, mu=0.0, sd=1.0, size=None):
+                if not isinstance(sd, fp.SymFP) and sd == 0:
+                    return mu
+                FPRNG.draws += 1
+                if FPRNG.draws > 3 * nu + 1:
+                    raise core.Cut("ieee:duration-redraws")
+                v = fp.fresh(ctx, "nrm", 64, lo=-2.0 ** 40, hi=2.0 ** 40)
+                log.append(v)
+                return v
+
+            def choice(self, seq, size=None, replace=True, p=None):
+                return list(seq)[0]
+
+            def seed(self, *a):
+                pass
+        ns.np.random = FPRNG()
+        smp = sa.StatisticalContinuumSampler()
+        smp.init_sampling_custom(["g0"], nu, 0, 1.0, 1.0, 1.0, 1.0, ["x"], None)
+
+        def rz(m):
+            return dict(kind="ieee-statistical", nu=nu, draws=[fp.hexf(fp.fpval(m, v)) for v in log])
+        ctx.notes["realize"] = rz
+        ctx.notes["fp_prefer"] = []
+        out = smp.sample_from_continuum
+        units = [u for _, u in out]
+        P = fp.SymFP.of(PREC)
+        obls = [Obl("ieee:sample-not-empty", len(units) >= 1, rz), Obl("ieee:annotators==ground-truth", list(out.annotators) == ["g0"], rz)]
+        for k, u in enumerate(units):
+            obls.append(Obl(f"ieee:unit-longer-than-precision-after-rounding[{k}]", (u.segment.end - u.segment.start) > P, rz))
+            obls.append(Obl(f"ieee:unit-bounds-finite[{k}]", fp.is_finite(fp.SymFP.of(u.segment.start)) & fp.is_finite(fp.SymFP.of(u.segment.end)), rz))
+        return obls
+
     def h(ctx):
+        if cfg["mode"] == "ieee":
+            return h_ieee(ctx)
         rng = stubs.RNG(ctx, max_draws=80)
         maxredraw = cfg.get("maxredraw", MAXREDRAW)
         ns.np.random = rng
@@ -264,6 +311,38 @@ def _extreme_scales():
     return dict(reproduced=bool(bad), detail="; ".join(bad[:3]))
 
 
+def _replay_ieee(case):
+    """the real sampler with numpy.random.normal returning exactly the model's binary64 draws"""
+    import numpy as np
+    import pyannote.core.segment as pseg
+    from pygamma_agreement.sampler import StatisticalContinuumSampler
+    from unittest import mock
+    draws = [fp.unhex(x) for x in case["draws"]]
+
+    def normal(mu=0.0, sd=1.0, size=None):
+        if sd == 0:
+            return mu
+        if not draws:
+            raise RuntimeError("replay ran out of recorded draws")
+        return draws.pop(0)
+    s = StatisticalContinuumSampler()
+    s.init_sampling_custom(["g0"], case["nu"], 0, 1.0, 1.0, 1.0, 1.0, ["x"], None)
+    bad = []
+    with mock.patch.object(np.random, "normal", normal), mock.patch.object(np.random, "choice", lambda seq, size=None, replace=True, p=None: list(seq)[0]):
+        try:
+            smp = s.sample_from_continuum
+            for _, u in smp:
+                if not (u.segment.end - u.segment.start > pseg.SEGMENT_PRECISION):
+                    bad.append(f"unit {u.segment.start!r}..{u.segment.end!r} not longer than the precision")
+            if smp.num_units < 1:
+                bad.append("empty sample")
+        except RuntimeError as ex:
+            return dict(reproduced=False, detail=str(ex))
+        except Exception as ex:     # noqa: BLE001
+            bad.append(f"draws {[fp.unhex(x) for x in case['draws']]}: raised {ex!r}"[:300])
+    return dict(reproduced=bool(bad), detail="; ".join(bad[:3]))
+
+
 def replay(case):
     """Real build with numpy.random mocked by the model's draws.  Reproduced iff the sample is invalid
     OR differs from the documented generative process run on the same draws (count = |trunc(N(avg_nb,
@@ -272,6 +351,8 @@ def replay(case):
     requested with other parameters than the documented ones."""
     if case.get("kind") == "extreme-scales":
         return _extreme_scales()
+    if case.get("kind") == "ieee-statistical":
+        return _replay_ieee(case)
     import numpy as np
     import pygamma_agreement as pa
     import pyannote.core.segment as pseg
